@@ -127,13 +127,13 @@ macro_rules! rans_step_fam {
 // (> 20 min, ~1 s per iteration of every `frequencies.iter()` loop). With 300 the constructor
 // folds but still costs ~0.2-0.4 s per slice-iterator step: Encoder::new + Decoder::new ~ 13-15 min
 // of symex under load, so every rANS instance that builds a table is in the thorough tier.
-rans_step_fam!(c01_rans_step_skew, thorough, 4100, 1);
-rans_step_fam!(c01_rans_step_two, thorough, 4100, 0);
-rans_step_fam!(c01_rans_step_all256, thorough, 3850, 2);
-rans_step_fam!(c01_rans_step_single, thorough, 4100, 3);
-rans_step_fam!(c01_rans_step_four, thorough, 4100, 4);
-rans_step_fam!(c01_rans_step_flat, thorough, 1100, 5);
-rans_step_fam!(c01_rans_step_1to1, thorough, 3100, 6);
+rans_step_fam!(c01_rans_step_skew, probe, 4100, 1);
+rans_step_fam!(c01_rans_step_two, probe, 4100, 0);
+rans_step_fam!(c01_rans_step_all256, probe, 3850, 2);
+rans_step_fam!(c01_rans_step_single, probe, 4100, 3);
+rans_step_fam!(c01_rans_step_four, probe, 4100, 4);
+rans_step_fam!(c01_rans_step_flat, probe, 1100, 5);
+rans_step_fam!(c01_rans_step_1to1, probe, 3100, 6);
 
 // ----------------------------------------------------------------------------- rANS whole message
 /// `encode` then `decode(.., N)` on N symbolic bytes with a concrete table (P streams).
@@ -199,13 +199,13 @@ macro_rules! rans_msg_fam {
         }
     };
 }
-rans_msg_fam!(c01_rans_msg_x1_n0, thorough, 4100, ParallelX1, 0, 1);
-rans_msg_fam!(c01_rans_msg_x1_n1, thorough, 4100, ParallelX1, 1, 1);
-rans_msg_fam!(c01_rans_msg_x1_n3, thorough, 4100, ParallelX1, 3, 1);
-rans_msg_fam!(c01_rans_msg_x2_n1, thorough, 4100, ParallelX2, 1, 1);
-rans_msg_fam!(c01_rans_msg_x2_n2, thorough, 4100, ParallelX2, 2, 1);
-rans_msg_fam!(c01_rans_msg_x2_n3, thorough, 4100, ParallelX2, 3, 1);
-rans_msg_fam!(c01_rans_msg_x4_n5, thorough, 4100, ParallelX4, 5, 1);
+rans_msg_fam!(c01_rans_msg_x1_n0, probe, 4100, ParallelX1, 0, 1);
+rans_msg_fam!(c01_rans_msg_x1_n1, probe, 4100, ParallelX1, 1, 1);
+rans_msg_fam!(c01_rans_msg_x1_n3, probe, 4100, ParallelX1, 3, 1);
+rans_msg_fam!(c01_rans_msg_x2_n1, probe, 4100, ParallelX2, 1, 1);
+rans_msg_fam!(c01_rans_msg_x2_n2, probe, 4100, ParallelX2, 2, 1);
+rans_msg_fam!(c01_rans_msg_x2_n3, probe, 4100, ParallelX2, 3, 1);
+rans_msg_fam!(c01_rans_msg_x4_n5, probe, 4100, ParallelX4, 5, 1);
 
 /// Encoder built from the all-zero count table (the one constructor path without normalisation):
 /// it must refuse every byte, and the empty message must round-trip.
@@ -319,8 +319,8 @@ macro_rules! dict_fam {
 // reach for this engine.
 dict_fam!(c01_dict_n0, quick, 4, 0, 0);
 dict_fam!(c01_dict_n1, quick, 4, 1, 0);
-dict_fam!(c01_dict_n2, thorough, 5, 2, 0);
-dict_fam!(c01_dict_n3, thorough, 6, 3, 0);
+dict_fam!(c01_dict_n2, probe, 5, 2, 0);
+dict_fam!(c01_dict_n3, probe, 6, 3, 0);
 
 /// Near-duplicate shape: a concrete 17-byte record, then the same record again with ONE symbolic byte
 /// in the middle (index P of the copy), so the match finder sees a long match that may or may not be
@@ -600,14 +600,14 @@ macro_rules! fse_stepx_fam {
         }
     };
 }
-fse_step_fam!(c01_fse_step_t13_start, thorough, 4100, 0, 0);
-fse_stepx_fam!(c01_fse_step_t13_xmax, thorough, 4100, 0, 1);
-fse_step_fam!(c01_fse_step_t13_top, thorough, 4100, 0, 2);
-fse_step_fam!(c01_fse_step_t13_l, thorough, 4100, 0, 3);
-fse_step_fam!(c01_fse_step_t13_all, thorough, 4100, 0, 9);
-fse_stepx_fam!(c01_fse_step_t112_xmax, thorough, 4100, 1, 1);
-fse_stepx_fam!(c01_fse_step_freq1_xmax, thorough, 4100, 2, 1);
-fse_step_fam!(c01_fse_step_zero_slot, thorough, 4100, 3, 0);
+fse_step_fam!(c01_fse_step_t13_start, probe, 4100, 0, 0);
+fse_stepx_fam!(c01_fse_step_t13_xmax, probe, 4100, 0, 1);
+fse_step_fam!(c01_fse_step_t13_top, probe, 4100, 0, 2);
+fse_step_fam!(c01_fse_step_t13_l, probe, 4100, 0, 3);
+fse_step_fam!(c01_fse_step_t13_all, probe, 4100, 0, 9);
+fse_stepx_fam!(c01_fse_step_t112_xmax, probe, 4100, 1, 1);
+fse_stepx_fam!(c01_fse_step_freq1_xmax, probe, 4100, 2, 1);
+fse_step_fam!(c01_fse_step_zero_slot, probe, 4100, 3, 0);
 
 // ----------------------------------------------------------------------------- Huffman order-0
 use zipora::entropy::huffman::{HuffmanDecoder, HuffmanEncoder, HuffmanTree};
@@ -696,6 +696,6 @@ macro_rules! huff_fam {
         }
     };
 }
-huff_fam!(c01_huff_o0_n1_two, thorough, 258, 1, 1);
-huff_fam!(c01_huff_o0_n2_three, thorough, 258, 2, 2);
-huff_fam!(c01_huff_o0_n2_single, thorough, 258, 2, 0);
+huff_fam!(c01_huff_o0_n1_two, probe, 258, 1, 1);
+huff_fam!(c01_huff_o0_n2_three, probe, 258, 2, 2);
+huff_fam!(c01_huff_o0_n2_single, probe, 258, 2, 0);
